@@ -726,13 +726,16 @@ class SigmaCorrelationRule(SigmaRuleBase, ProcessingItemTrackingMixin):
 
     def to_dict(self: Self) -> dict[str, Any]:
         d = super().to_dict()
-        dc = {
+        dc: dict[str, Any] = {
             "type": self.type.name.lower(),
             "rules": [rule.reference for rule in self.rules] if self.rules is not None else [],
             "timespan": self.timespan.spec,
             "group-by": self.group_by,
             "aliases": self.aliases.to_dict() if self.aliases is not None else None,
         }
+
+        if self.generate:  # False is the default that is assumed if generate is not given
+            dc["generate"] = True
 
         # Serialize condition based on its type
         if self.condition is not None:
